@@ -15,7 +15,6 @@ import (
 var notApplicable = map[string]string{
 	"C38": "delete semantics is a semantic diff of graphs before/after an edit; needs execution or a reference model, which is a different technique family",
 	"C39": "rename/move semantics is a semantic diff of graphs before/after an edit; needs execution or a reference model",
-	"C40": "agreement of the results of two large functions (the edit and its ID-delta prediction) over all edits; no structural necessary condition that would not also fire on refactors",
 }
 
 func writeManifest() error {
